@@ -19,6 +19,19 @@ def hostnameCreateAt (s : Str) (plen : Nat) : Hostname :=
 
 theorem hostnameCreate_eq_at (s : Str) : hostnameCreate s = hostnameCreateAt s (hostPrefixLen s) := rfl
 
+def lastIsDigit (s : Str) : Bool := match s.getLast? with | some c => isDigit c | none => false
+
+/-- the test that sends `hostrange_hn_within` into its recursion: the name's prefix is shorter
+    than the record's, the record's prefix ends in a digit, the name has ≥ 2 digits and its first
+    digit continues the record's prefix -/
+def hnRecurse (r : HRange) (hn : Hostname) (suf : Str) : Bool :=
+  hn.pre.length < r.pre.length && suf.length > 1 && lastIsDigit r.pre
+    && r.pre[hn.pre.length]? = suf.head?
+
+/-- the final test: identical prefixes and the number inside the record's bounds -/
+def hnMatch (r : HRange) (hn : Hostname) : Bool :=
+  r.pre.length = hn.pre.length && hn.pre = r.pre && hn.num ≤ r.hi && hn.num ≥ r.lo
+
 /-- `hostrange_hn_within(hr, hn)`: offset of the name inside the record or `none` (-1), and the
     record afterwards (`_width_equiv(hr->lo, &hr->width, ..)` may rewrite its width in place).
     `name` is `hn->hostname`.  The recursion moves the split point of the name one character to
@@ -31,14 +44,10 @@ def hnWithin : Nat → HRange → Str → Hostname → Option Nat × HRange
       match hn.suffix with
       | none => (none, r)
       | some suf =>
-        let lenHn := hn.pre.length
-        let lenHr := r.pre.length
-        if r.pre.take lenHn ≠ hn.pre then (none, r)               -- strncmp(hr->prefix, hn->prefix, len_hn)
-        else if lenHn < lenHr && suf.length > 1
-            && (match r.pre.getLast? with | some c => isDigit c | none => false)
-            && r.pre[lenHn]? = suf.head? then
-          hnWithin fuel r name (hostnameCreateAt name (lenHn + 1))
-        else if lenHr = lenHn && hn.pre = r.pre && hn.num ≤ r.hi && hn.num ≥ r.lo then
+        if r.pre.take hn.pre.length ≠ hn.pre then (none, r)       -- strncmp(hr->prefix, hn->prefix, len_hn)
+        else if hnRecurse r hn suf then
+          hnWithin fuel r name (hostnameCreateAt name (hn.pre.length + 1))
+        else if hnMatch r hn then
           match widthEquiv r.lo r.width hn.num suf.length with
           | (true, wn, _) => (some (hn.num - r.lo), { r with width := wn })
           | (false, _, _) => (none, r)
